@@ -386,3 +386,13 @@ Theorem c01_assign_then_output_is_output : forall g ld fuel x e v c b,
   = bf (render g ld (S (S fuel)) (NOutput e) c b).
 Proof. exact assign_then_output_text. Qed.
 Print Assumptions c01_assign_then_output_is_output.
+
+(** `unless c` is `if not c`: same branch, same elsif/else alternatives, same
+    errors, for every condition, context and buffer (given fuel enough to
+    evaluate the condition). *)
+Theorem c01_unless_is_if_not : forall g ld f cond conseq alts els c b,
+  eval f c cond <> EFuel ->
+  render g ld (S (S f)) (NUnless cond conseq alts els) c b
+  = render g ld (S (S f)) (NIf (ENot cond) conseq alts els) c b.
+Proof. exact unless_is_if_not. Qed.
+Print Assumptions c01_unless_is_if_not.
